@@ -101,12 +101,19 @@ const (
 	wherePrd = "a > 0"
 )
 
+// Check expressions carry string literals on purpose (one ends in a backslash, which is no escape character in SQLite):
+// the inspector has to cut them out of the stored CREATE TABLE text.
+const (
+	exprE1 = `(a > 0 OR a = 'q')`
+	exprE2 = `(a > 1 AND a <> '\')`
+)
+
 func ExprText(id string) string {
 	switch id {
 	case "e1":
-		return "(a > 0)"
+		return exprE1
 	case "e2":
-		return "(a > 1)"
+		return exprE2
 	}
 	return id
 }
@@ -296,9 +303,9 @@ func normExpr(e string) string {
 		e = "(" + e + ")"
 	}
 	switch e {
-	case "(a > 0)":
+	case exprE1:
 		return "e1"
-	case "(a > 1)":
+	case exprE2:
 		return "e2"
 	}
 	return e
@@ -316,6 +323,10 @@ func checksOf(sqlText string) []Chk {
 		start := j
 		for ; j < len(sqlText); j++ {
 			switch sqlText[j] {
+			case '\'':
+				// a string literal: up to the next quote (a doubled quote re-opens immediately)
+				for j++; j < len(sqlText) && sqlText[j] != '\''; j++ {
+				}
 			case '(':
 				depth++
 			case ')':
@@ -459,6 +470,14 @@ func Project(db *sql.DB) (State, error) {
 				x.Parts = append(x.Parts, Part{C: n.String, Desc: d == 1})
 			}
 			pr.Close()
+			for k := range x.Parts {
+				if x.Parts[k].C == "" {
+					// an expression part: take its text from the CREATE INDEX statement
+					var isql sql.NullString
+					db.QueryRow(`SELECT sql FROM sqlite_master WHERE type = 'index' AND name = ?`, r.name).Scan(&isql)
+					x.Parts[k].C = "expr:" + exprPart(isql.String, k)
+				}
+			}
 			if r.partial == 1 {
 				var isql sql.NullString
 				db.QueryRow(`SELECT sql FROM sqlite_master WHERE type = 'index' AND name = ?`, r.name).Scan(&isql)
@@ -502,6 +521,46 @@ func Project(db *sql.DB) (State, error) {
 		st[tr.name] = t
 	}
 	return st, nil
+}
+
+// exprPart returns the k-th (0-based) key part of a CREATE INDEX statement, blanks and quotes removed.
+func exprPart(stmt string, k int) string {
+	i := strings.Index(stmt, "(")
+	if i < 0 {
+		return "?"
+	}
+	depth, start, n := 0, i+1, 0
+	for j := i; j < len(stmt); j++ {
+		switch stmt[j] {
+		case '(':
+			depth++
+		case ')':
+			depth--
+			if depth == 0 {
+				if n == k {
+					return clean(stmt[start:j])
+				}
+				return "?"
+			}
+		case ',':
+			if depth == 1 {
+				if n == k {
+					return clean(stmt[start:j])
+				}
+				n++
+				start = j + 1
+			}
+		}
+	}
+	return "?"
+}
+
+func clean(s string) string {
+	s = strings.NewReplacer(" ", "", "`", "", "\"", "", "\n", "", "\t", "").Replace(s)
+	for strings.HasPrefix(s, "(") && strings.HasSuffix(s, ")") {
+		s = s[1 : len(s)-1]
+	}
+	return s
 }
 
 // Canon sorts the set-like fields so that two equal abstract states have equal JSON.
